@@ -123,10 +123,16 @@ def _header(draw: st.DrawFn) -> dict[str, Any] | None:
     return {"fields": fields, "value": {f["name"]: draw(_values(f["type"])) for f in fields}}
 
 
+def _late(on: bool) -> dict[str, Any]:
+    """Optional ``late_logs``: client logs the step writes AFTER its data batch (not part of the model's log list: only
+    checks that do not compare logs turn this on)."""
+    return {"late_logs": st.lists(_log, min_size=1, max_size=2)} if on else {}
+
+
 @st.composite
 def _method(
     draw: st.DrawFn, idx: int, kinds: list[str], faults: bool, dense_logs: bool, init_faults: bool | None = None, min_steps: int = 0,
-    unions: bool = False,
+    unions: bool = False, late_logs: bool = False,
 ) -> dict[str, Any]:
     kind = draw(st.sampled_from(kinds))
     params = draw(_params())
@@ -167,7 +173,7 @@ def _method(
         if faults:
             step_ops.append(st.just({"op": "nothing"}))
         m["steps"] = draw(
-            st.lists(st.fixed_dictionaries({"logs": _logs(2, dense=dense_logs), "action": weighted(step_ops)}), min_size=min_steps, max_size=6)
+            st.lists(st.fixed_dictionaries({"logs": _logs(2, dense=dense_logs), "action": weighted(step_ops)}, optional=_late(late_logs)), min_size=min_steps, max_size=6)
         )
     else:
         m["in_cols"] = draw(_cols(allow_empty=False))
@@ -175,7 +181,7 @@ def _method(
         if faults:
             resp_ops += [st.just({"op": "finish"}), st.just({"op": "nothing"})]
         m["responses"] = draw(
-            st.lists(st.fixed_dictionaries({"logs": _logs(2, dense=dense_logs), "action": weighted(resp_ops)}), min_size=min_steps, max_size=5)
+            st.lists(st.fixed_dictionaries({"logs": _logs(2, dense=dense_logs), "action": weighted(resp_ops)}, optional=_late(late_logs)), min_size=min_steps, max_size=5)
         )
     return m
 
@@ -210,9 +216,10 @@ def program_specs(
     init_faults: bool | None = None,
     min_steps: int = 0,
     unions: bool = False,
+    late_logs: bool = False,
 ) -> dict[str, Any]:
     n = draw(st.integers(1, max_methods))
-    methods = [draw(_method(i, list(kinds), faults, dense_logs, init_faults, min_steps, unions)) for i in range(n)]
+    methods = [draw(_method(i, list(kinds), faults, dense_logs, init_faults, min_steps, unions, late_logs)) for i in range(n)]
     calls = draw(st.lists(_call(methods, early_exit), min_size=1, max_size=max_calls))
     return {"methods": methods, "calls": calls}
 
